@@ -2093,11 +2093,11 @@ func (s *sim) finishCall() {
 				}
 				idx, first := -1, -1
 				for i, r := range c.replies {
-					if r.prov != prim && r.blk != nil && r.reqH == target.h && r.blk.h == target.h && r.blk.hash != target.hash {
+					if r.prov != prim && r.blk != nil && r.reqH == target.h && r.blk.hash != target.hash {
 						if first < 0 {
-							first = i
+							first = i // earliest differing answer of any witness (whatever its height)
 						}
-						if r.prov == w && idx < 0 {
+						if r.prov == w && idx < 0 && r.blk.h == target.h {
 							idx = i
 						}
 					}
